@@ -16,6 +16,7 @@ type TypeDesc struct {
 	Tags []string // db tags (struct) or suggested keys (map)
 	Rare bool     // picked less often (types Prepare rejects)
 	Hot  bool     // picked more often (members reached through several levels of embedding)
+	Elem string   // slice types: name of the element type when it is itself a type of the schema
 }
 
 type Schema struct {
@@ -491,6 +492,30 @@ func (g *G) where() string {
 			q += g.R.Pick([]string{" AND ", " OR ", "\nAND "})
 		}
 		op := g.R.Pick([]string{"=", " = ", "<", ">=", "<>", " LIKE ", "&", "|", "+1=", "%", "-", "/"})
+		if g.R.Chance(1, 10) {
+			// a named slice together with its own element type in one statement
+			var c []TypeDesc
+			for _, t := range g.S.Types {
+				if t.Kind == "slice" && t.Elem != "" {
+					c = append(c, t)
+				}
+			}
+			paired := false
+			if len(c) > 0 {
+				st := c[g.R.Intn(len(c))]
+				for _, et := range g.S.Types {
+					if et.Name == st.Elem && len(et.Tags) > 0 {
+						g.count("slice-with-its-element-type")
+						q += g.R.Pick(plainIdents) + op + "$" + et.Name + "." + g.tag(et) + " AND " + g.R.Pick(plainIdents) + " IN ($" + st.Name + "[:])"
+						paired = true
+						break
+					}
+				}
+			}
+			if paired {
+				continue
+			}
+		}
 		switch g.R.Intn(4) {
 		case 0:
 			// the slice first, last or in the middle of the list
